@@ -90,7 +90,8 @@ def apply_edit(root, v):
                            env=dict(os.environ, GIT_CEILING_DIRECTORIES=os.path.dirname(root)))
         if r.returncode != 0:
             return "patch does not apply to the current tree: %s" % r.stderr.strip()[:200]
-        return None
+        if not (v.get("edits") or v.get("file")):
+            return None
     edits = v.get("edits") or [(v["file"], v["old"], v["new"])]
     for file, old, new in edits:
         p = os.path.join(root, file)
